@@ -183,7 +183,7 @@ def main(tier, seed):
     binp = build_server()
     d = lib.casedir(PID)
     rng = random.Random(seed * 7919 + 18)
-    rounds, nreq = (3, 50) if tier == "quick" else (20, 100)
+    rounds, nreq = (3, 50) if tier == "quick" else (60, 120)
     port = free_port()
     env = dict(os.environ)
     env["RAYON_NUM_THREADS"] = "4"
